@@ -821,6 +821,10 @@ pub const DET_CLASSES: &[&str] = &[
     "witness-placed-unmapped-read-overhanging-reference-end",
 ];
 
+/// Deterministic scale family (quick tier, all tiers): many records / single records larger than a BGZF block.
+pub const SCALE_QUICK: &[&str] = &["scale-many-records-10241", "scale-many-records-20481", "scale-large-record-70000", "scale-large-record-150000"];
+pub const SCALE_THOROUGH: &[&str] = &["scale-many-records-25000", "scale-large-record-300000"];
+
 pub const RANDOM_CLASSES: &[&str] = &["many-mixed", "multi-reference", "unmapped-only", "one-mapped", "few-long", "header-only", "multi-block", "mate-pairs"];
 
 /// One record set of the given class; pure function of (class, seed).
@@ -951,6 +955,94 @@ pub fn make_set(class: &str, seed: u64) -> ASet {
                 })
                 .collect();
             (String::new(), Vec::new(), recs)
+        }
+        // ---- scale family ----------------------------------------------------------------------
+        // more records than one CRAM container holds (10 240): 2-3 data containers, several BGZF blocks
+        c if c.starts_with("scale-many-records-") => {
+            let n: usize = c.rsplit('-').next().unwrap().parse().expect("record count");
+            let refs = make_refs(rng, 2, 150, 200);
+            let m = GenOpts { mapped: true, unmapped: true, placed_unmapped: true, max_read: 24, aux: false, long: false };
+            let recs = (0..n).map(|i| rand_record(rng, i, &refs, &[], &m)).collect();
+            (header_text(&refs, Some("@HD\tVN:1.6"), &[], false), refs, recs)
+        }
+        // single records far larger than one BGZF block between small ones: a mapped read of n bases with a long
+        // CIGAR, an unmapped read of n bases, a small read with a 100 kB Z tag
+        c if c.starts_with("scale-large-record-") => {
+            let n: usize = c.rsplit('-').next().unwrap().parse().expect("read length");
+            let mut refs = make_refs(rng, 1, 300, 600);
+            refs.push(RefDesc { name: "big1".into(), seq: rand_ref(rng, n + n / 8 + 1000) });
+            let sm = o(true, true, 100);
+            let mut recs: Vec<Aln> = Vec::new();
+            let mut idx = 0usize;
+            let small = |rng: &mut Rng, recs: &mut Vec<Aln>, idx: &mut usize, k: usize| {
+                for _ in 0..k {
+                    recs.push(rand_record(rng, *idx, &refs[..1], &rgs, &sm));
+                    *idx += 1;
+                }
+            };
+            small(rng, &mut recs, &mut idx, 3);
+            // mapped: 5S then M blocks of 20..80 separated by I/D/N until n read bases are used
+            let mut cigar: Vec<(char, usize)> = vec![('S', 5)];
+            let mut read = 5usize;
+            while read < n {
+                let m = rng.urange(20, 80).min(n - read);
+                cigar.push(('M', m));
+                read += m;
+                if read < n {
+                    let k = *rng.pick(&['I', 'D', 'N', 'D']);
+                    let l = if k == 'I' { rng.urange(1, 3).min(n - read) } else { rng.urange(1, 4) };
+                    // an insertion must leave room for a closing M
+                    let k = if k == 'I' && read + l >= n { 'D' } else { k };
+                    cigar.push((k, l));
+                    if k == 'I' {
+                        read += l;
+                    }
+                }
+            }
+            if cigar.last().map(|o| o.0) != Some('M') {
+                cigar.pop();
+            }
+            let span = cigar_span(&cigar);
+            let p = rng.urange(1, refs[1].seq.len() - span + 1);
+            let mut s = Vec::with_capacity(n);
+            let mut rp = p - 1;
+            for &(k, l) in &cigar {
+                match k {
+                    'M' => {
+                        for j in 0..l {
+                            let rb = refs[1].seq[rp + j];
+                            s.push(if rng.chance(1, 50) { rand_base(rng) } else { rb });
+                        }
+                        rp += l;
+                    }
+                    'I' | 'S' => (0..l).for_each(|_| s.push(rand_base(rng))),
+                    _ => rp += l,
+                }
+            }
+            let mut big = rand_record(rng, idx, &refs[..1], &rgs, &o(true, false, 50));
+            idx += 1;
+            big.flags &= !(0x1 | 0x2 | 0x8 | 0x20 | 0x40 | 0x80);
+            (big.mrid, big.mpos, big.tlen) = (None, None, 0);
+            big.rid = Some(1);
+            big.pos = Some(p);
+            big.qual = (0..s.len()).map(|_| rng.below(61) as u8).collect();
+            big.seq = s;
+            big.cigar = cigar;
+            recs.push(big);
+            small(rng, &mut recs, &mut idx, 2);
+            let mut un = rand_record(rng, idx, &[], &[], &GenOpts { mapped: false, unmapped: true, placed_unmapped: false, max_read: 30, aux: true, long: false });
+            idx += 1;
+            un.seq = (0..n).map(|_| rand_base(rng)).collect();
+            un.qual = (0..n).map(|_| rng.below(61) as u8).collect();
+            recs.push(un);
+            small(rng, &mut recs, &mut idx, 2);
+            let mut z = rand_record(rng, idx, &refs[..1], &rgs, &o(true, false, 80));
+            idx += 1;
+            z.aux.retain(|(t, _)| t != b"YZ");
+            z.aux.push((*b"YZ", Aux::Str(rand_str(rng, STR_CHARS, 100_000, 100_000))));
+            recs.push(z);
+            small(rng, &mut recs, &mut idx, 3);
+            (header_text(&refs, hd.or(Some("@HD\tVN:1.6")), &rgs, false), refs, recs)
         }
         c => panic!("unknown alignment set class {c}"),
     };
